@@ -4,9 +4,10 @@ of /repo: (1) patch applies and the crate's own suite passes with it, (2) the de
 without it. Writes /verif/seeded/<prop>-<k>/{patch.diff,demo.rs,meta.json}."""
 import subprocess, sys, os, json, shutil
 out, prop, k = sys.argv[1], sys.argv[2], sys.argv[3]
-WT = "/root/scratch/confirm/repo"
+LANE = os.environ.get("CONFIRM_LANE", "")
+WT = "/root/scratch/confirm%s/repo" % LANE
 def sh(cmd, cwd=None): return subprocess.run(cmd, capture_output=True, text=True, cwd=cwd)
-os.makedirs("/root/scratch/confirm", exist_ok=True)
+os.makedirs(os.path.dirname(WT), exist_ok=True)
 if not os.path.exists(WT):
     sh(["git", "-C", "/repo", "worktree", "add", "-q", WT, "HEAD"])
 crate = WT + "/packages/rooc"
